@@ -20,14 +20,20 @@
 (***************************************************************************)
 EXTENDS Integers, Sequences, FiniteSets
 
-MonInit(Vars) == [heap |-> <<>>, vars |-> [v \in Vars |-> 0], bad |-> "ok"]
+\* coll = {} is the property: two keys are the same key iff they are equal in kind and content.  A non-empty coll (pairs
+\* <<stored key, queried key>> that are additionally taken for the same key) is used ONLY to decide whether a history that
+\* violates the property fails exactly as a listed known finding predicts (see DictTrace.tla, known_findings.json).
+MonInit(Vars, coll) == [heap |-> <<>>, vars |-> [v \in Vars |-> 0], bad |-> "ok", coll |-> coll]
 
-RECURSIVE Lookup(_, _)
-Lookup(ps, k) == IF ps = <<>> THEN "undef" ELSE IF Head(ps)[1] = k THEN Head(ps)[2] ELSE Lookup(Tail(ps), k)
-HasKey(ps, k) == \E j \in 1..Len(ps) : ps[j][1] = k
-Put(ps, k, v) == IF HasKey(ps, k) THEN [j \in 1..Len(ps) |-> IF ps[j][1] = k THEN <<k, v>> ELSE ps[j]]
-                 ELSE Append(ps, <<k, v>>)
-Del(ps, k) == SelectSeq(ps, LAMBDA p : p[1] # k)
+Eq(coll, stored, q) == stored = q \/ <<stored, q>> \in coll
+RECURSIVE LookupC(_, _, _)
+LookupC(c, ps, k) == IF ps = <<>> THEN "undef" ELSE IF Eq(c, Head(ps)[1], k) THEN Head(ps)[2] ELSE LookupC(c, Tail(ps), k)
+Lookup(ps, k) == LookupC({}, ps, k)
+HasKey(c, ps, k) == \E j \in 1..Len(ps) : Eq(c, ps[j][1], k)
+First(c, ps, k) == CHOOSE j \in 1..Len(ps) : Eq(c, ps[j][1], k) /\ \A i \in 1..(j - 1) : ~Eq(c, ps[i][1], k)
+Put(c, ps, k, v) == IF HasKey(c, ps, k) THEN [ps EXCEPT ![First(c, ps, k)] = <<ps[First(c, ps, k)][1], v>>]   \* the stored key stays
+                    ELSE Append(ps, <<k, v>>)
+Del(c, ps, k) == IF HasKey(c, ps, k) THEN [j \in 1..(Len(ps) - 1) |-> IF j < First(c, ps, k) THEN ps[j] ELSE ps[j + 1]] ELSE ps
 \* a sequence of observed pairs visits every key/value pair exactly once (in any order)
 SamePairs(obs, ps) == /\ Len(obs) = Len(ps)
                       /\ \A j \in 1..Len(ps) : Cardinality({i \in 1..Len(obs) : obs[i] = ps[j]}) = 1
@@ -37,8 +43,8 @@ Cell(m, var) == m.heap[Ref(m, var)]
 
 Verdict(m, e) ==
   CASE e.op \in {"add", "find", "remove", "size", "each"} /\ Ref(m, e.var) = 0 -> "skip"
-    [] e.op = "find" -> IF e.obs = Lookup(Cell(m, e.var), e.k) THEN "ok"
-                        ELSE IF Lookup(Cell(m, e.var), e.k) = "undef" THEN "MissingKeyNotUndefined" ELSE "WrongValue"
+    [] e.op = "find" -> IF e.obs = LookupC(m.coll, Cell(m, e.var), e.k) THEN "ok"
+                        ELSE IF LookupC(m.coll, Cell(m, e.var), e.k) = "undef" THEN "MissingKeyNotUndefined" ELSE "WrongValue"
     [] e.op = "size" -> IF e.obs = Len(Cell(m, e.var)) THEN "ok" ELSE "WrongSize"
     [] e.op = "each" -> IF SamePairs(e.obs, Cell(m, e.var)) THEN "ok" ELSE "EachDidNotVisitEveryPairOnce"
     [] OTHER -> "ok"
@@ -47,8 +53,8 @@ Apply(m, e) ==
   CASE e.op \in {"new", "newf"} ->
          [m EXCEPT !.heap = Append(@, e.pairs), !.vars[e.var] = Len(m.heap) + 1]        \* a FRESH dictionary
     [] e.op = "alias" -> [m EXCEPT !.vars[e.var] = m.vars[e.src]]
-    [] e.op = "add" /\ Ref(m, e.var) # 0 -> [m EXCEPT !.heap[Ref(m, e.var)] = Put(@, e.k, e.v)]
-    [] e.op = "remove" /\ Ref(m, e.var) # 0 -> [m EXCEPT !.heap[Ref(m, e.var)] = Del(@, e.k)]
+    [] e.op = "add" /\ Ref(m, e.var) # 0 -> [m EXCEPT !.heap[Ref(m, e.var)] = Put(m.coll, @, e.k, e.v)]
+    [] e.op = "remove" /\ Ref(m, e.var) # 0 -> [m EXCEPT !.heap[Ref(m, e.var)] = Del(m.coll, @, e.k)]
     [] OTHER -> m
 
 Step(m, e) == LET v == Verdict(m, e) m2 == Apply(m, e)
